@@ -16,7 +16,7 @@ def isVowelEnding (c : Char) : Bool := c == 'o' || c == 'a' || c == 'e' || c == 
 for the ordinal stems (except the word "secondi") and for `…esim`. -/
 def lemmatize (w : Word) : Word :=
   let cand := trimEndBy isVowelEnding w
-  if (ordStems.contains cand && w != w!"secondi") || endsWith cand w!"esim" then cand else w
+  if (ordStems.contains cand && w != w!"secondi") || endsWith cand w!"esim" || endsWith cand w!"decim" then cand else w
 
 /-- the `WordSplitter` patterns of `impl Default for Italian`, same order -/
 def patterns : List Word := [
@@ -52,8 +52,8 @@ def multPlur (k : Nat) : Act := .ite (.or .empty isJustOne) (.fail .nan) (.shift
 
 /-- lemma ↦ instruction (the `match lemmatize(num_func) { … }` of `apply`).
 No lemma occurs in two arms. The arm `"non" if b.is_empty() && num_func != "non"` depends on the raw
-word: the `num_func != "non"` part is handled in `applyFuel`. The pattern `"centunesimo"` is
-unreachable (`lemmatize` never returns a word ending in `esimo`) but is kept for fidelity. -/
+word: the `num_func != "non"` part is handled in `applyFuel`.
+-/
 def vocab : List (Word × Act) := [
   (w!"zero", .put [0]),
   (w!"un", unitFree 1), (w!"uno", unitFree 1), (w!"una", unitFree 1), (w!"unesim", unitFree 1),
@@ -104,12 +104,13 @@ def vocab : List (Word × Act) := [
   (w!"settantotto", .put [7,8]), (w!"settantottesim", .put [7,8]),
   (w!"ottanta", .put [8,0]), (w!"ottantesim", .put [8,0]), (w!"ttanta", .put [8,0]), (w!"ttantesim", .put [8,0]),
   (w!"ottantuno", .put [8,1]), (w!"ottantun", .put [8,1]), (w!"ottantunesim", .put [8,1]),
-  (w!"ottantotto", .put [8,8]), (w!"ottantottesim", .put [8,8]),
+  (w!"ttantuno", .put [8,1]), (w!"ttantun", .put [8,1]), (w!"ttantunesim", .put [8,1]),
+  (w!"ottantotto", .put [8,8]), (w!"ottantottesim", .put [8,8]), (w!"ttantotto", .put [8,8]), (w!"ttantottesim", .put [8,8]),
   (w!"novanta", .put [9,0]), (w!"novantesim", .put [9,0]),
   (w!"novantuno", .put [9,1]), (w!"novantun", .put [9,1]), (w!"novantunesim", .put [9,1]),
   (w!"novantotto", .put [9,8]), (w!"novantottesim", .put [9,8]),
   (w!"cento", cento), (w!"centesim", cento),
-  (w!"centuno", .put [1,0,1]), (w!"centun", .put [1,0,1]), (w!"centunesimo", .put [1,0,1]),
+  (w!"centuno", .put [1,0,1]), (w!"centun", .put [1,0,1]), (w!"centunesim", .put [1,0,1]),
   (w!"mille", .when (.rangeFree 3 5) (.put [1,0,0,0])),
   (w!"mila", .when (.rangeFree 3 5)
     (.ite (.or (.or (.or (.peekEq 3 [1]) (.peekEq 3 [0,0,1])) (.peekLen 3 0)) (.peekEq 3 [0,0,0]))
